@@ -24,7 +24,7 @@ PLAN = {
     "thorough": {"shards": 16, "shard_timeout": 3600, "case_timeout": 60, "runs": 1200000, "max_case_timeouts": 10},
 }
 THRESHOLDS = {
-    "quick": {"runs_checked": 600, "budget_checks": 5000, "alg:gp": 100, "alg:rs": 100, "alg:hc": 100, "alg:opo": 100, "kind:evaluation": 200, "kind:target": 100, "kind:anyof": 150, "target_reached_runs": 60, "zero_creation_runs": 10, "selection_after_variation_runs": 40, "frontend_runs": 40, "frontend_runs_with_target_zero": 10, "frontend_target_reached_runs": 15},
+    "quick": {"runs_checked": 600, "budget_checks": 5000, "alg:gp": 100, "alg:rs": 100, "alg:hc": 100, "alg:opo": 100, "kind:evaluation": 200, "kind:target": 100, "kind:anyof": 150, "target_reached_runs": 60, "zero_creation_runs": 10, "selection_after_variation_runs": 40, "frontend_runs": 40, "gp_runs_with_membership_model": 100, "frontend_runs_with_target_zero": 10, "frontend_target_reached_runs": 15},
     "thorough": {"runs_checked": 15000, "budget_checks": 120000, "zero_creation_runs": 300},
 }
 
@@ -232,6 +232,21 @@ def run_case(case, rec):
             "par-mut-then-tournament": ParallelStep([ElitismStep(), SequenceStep(GenericMutationStep(1.0), TournamentSelection(3, with_replacement=True))], weights=[1, 4]),
             "mut-then-elitism": SequenceStep(GenericMutationStep(1.0), ElitismStep()),
         }[case["step"]]
+    gen_members: list = []  # individuals handed to a generation's Population by the step, in order (GP only)
+
+    if case["alg"] == "gp":
+        from geneticengine.algorithms.gp.gp import default_generic_programming_step
+        from geneticengine.algorithms.gp.structure import GeneticStep
+
+        inner_step = step if step is not None else default_generic_programming_step()
+
+        class Membership(GeneticStep):  # delegating step (extension API): logs what enters each generation
+            def iterate(self, problem, evaluator, representation, random, population, target_size, generation):
+                for ind in inner_step.apply(problem, evaluator, representation, random, population, target_size, generation):
+                    gen_members.append((len(log), ind))
+                    yield ind
+
+        step = Membership()
     alg = {
         "gp": lambda: GeneticProgramming(prob, budget, rep, src, tracker=tracker, population_size=size, step=step),
         "rs": lambda: RandomSearch(prob, budget, rep, src, tracker=tracker),
@@ -279,6 +294,14 @@ def run_case(case, rec):
         return
     total = log[-1]["evals"]
     model_target = [e["best"] is not None and abs(e["best"] - TARGET) < 1e-4 for e in log]
+    if case["alg"] == "gp" and gen_members:
+        # independent of the tracker: every member of a generation has been through the search's evaluation by the next
+        # check, so once a member holding the target fitness exists, the best fitness is the target (the target is the
+        # best value in the declared direction). A member that entered before check k is known at check k.
+        rec.count("gp_runs_with_membership_model")
+        first_target_member = next((k for k, ind in gen_members if ind.has_fitness(prob) and abs(ind.get_fitness(prob).fitness_components[0] - TARGET) < 1e-4), None)
+        if first_target_member is not None:
+            model_target = [ok or i >= first_target_member for i, ok in enumerate(model_target)]
     if case["kind"] == "evaluation":
         first = next((i for i, e in enumerate(log) if e["evals"] >= n), None)
         if first != len(log) - 1:
